@@ -178,18 +178,8 @@ def run(ctx: Ctx, rep: Report, tier: str):
     from rules.common import parent_first_priorities
     section(rep, lambda: parent_first_priorities(ctx, rep, "C01.R8"))
     rep.rule("C01.R9", "the parent-conflict search climbs every ancestor: inside its loop _get_parent_conflict moves to the parent and recomputes the parent's parent", 1)
-    gp = M.methods["_get_parent_conflict"]
-    loops = [n for n in ctx.own_nodes(gp) if isinstance(n, ast.While)]
-    ok = False
-    if loops:
-        lp = loops[0]
-        names = {x.id for x in ast.walk(lp.test) if isinstance(x, ast.Name)}
-        asg = {n_.targets[0].id: n_.value for n_ in ast.walk(lp) if isinstance(n_, ast.Assign) and isinstance(n_.targets[0], ast.Name)}
-        climbing = [k for k, v in asg.items() if isinstance(v, ast.Call) and isinstance(v.func, ast.Attribute) and v.func.attr == "dirname"]
-        moving = [k for k, v in asg.items() if isinstance(v, ast.Name) and v.id in climbing]
-        ok = bool(climbing) and bool(moving) and set(climbing + moving) >= names and any(pat.match("$P.dirname(%s)" % mv, asg[c_]) is not None for c_ in climbing for mv in moving)
-    rep.check("C01.R9", "_get_parent_conflict|climb", gp, ok, "path := parent; parent := dirname(path) inside the loop",
-              "the ancestor walk of _get_parent_conflict no longer climbs (only the immediate parent is examined): a changed grand-parent is synced after its descendants")
+    from rules.common import parent_search_climbs
+    section(rep, lambda: parent_search_climbs(ctx, rep, "C01.R9"))
     from rules.common import kids_sync_path_rebased
     rep.rule("C01.R10", "a renamed folder re-bases each child's last-synced path from the child's own old last-synced path (C04.R4)", 1)
     section(rep, lambda: kids_sync_path_rebased(ctx, rep, "C01.R10"))
